@@ -110,7 +110,10 @@ PROPERTY = {
         "statement (eventually decided / applied) are not decided by this check; the bounded stand-in only observes that "
         "every sampled run reaches a decision",
     ],
-    "task_timeout": 600,
+    # (wall-clock backstop only; the tasks that carry the OPEN known findings refute slowly - with the thorough tier's 4x
+    #  solver budgets each stage of a refutation runs 4x longer before it gives up)
+    "task_timeout": 4800 if ("thorough" in __import__("sys").argv
+                             or __import__("os").environ.get("VERIF_TIER") == "thorough") else 900,
 }
 
 
